@@ -443,17 +443,25 @@ def handle_violations(prop, batch, exes, shrink=None, expect_fn=None, key_fn=Non
                 reported.append({"class": cv[0], "detail": cv[1], "known_finding": k0})
             continue
         mrun, mres, mv = run, res, v
-        if v[0] == "timeout":
+        if v[0] in ("timeout", "step-budget"):
             # wall-clock limits are the one thing the simulator does not control: re-run with a
-            # three times larger limit before believing a hang (a loaded machine is not a hang)
+            # three times larger limit before believing a hang (a loaded machine is not a hang).
+            # The same for the step budget: a run that is merely long finishes under a four
+            # times larger budget, a livelock exceeds any budget.
             again = dict(run)
             again["timeout"] = 3 * run.get("timeout", 120)
+            if v[0] == "step-budget":
+                again["sim"] = dict(run["sim"])
+                again["sim"]["maxsteps"] = 4 * int(run["sim"].get("maxsteps", 50_000_000))
             ares = execute(again, exes)
             av = classify(again, ares)
             if av is None:
-                log("  a run exceeded its wall-clock limit once but finished in %.0fs when repeated: not a hang (index %d)" % (ares["wall"], run["index"]))
+                log("  a run exceeded its %s once but finished in %.0fs when repeated with a larger one: not a hang (index %d)" % ("wall-clock limit" if v[0] == "timeout" else "step budget", ares["wall"], run["index"]))
                 continue
-            if av[0] != "timeout":
+            if av[0] == "timeout" and v[0] == "step-budget":
+                log("  a run exceeded its step budget and, with a four times larger budget, its wall-clock limit: inconclusive, not reported (index %d)" % run["index"])
+                continue
+            if av[0] != v[0]:
                 v = av
                 res = ares
                 mrun, mres, mv = again, ares, av
